@@ -127,6 +127,7 @@ def run(case, kind, seed=0, n_ops=10, ops=None):
             if ok:
                 return False
         return True
+    origin_of = {sc['id']: sc['origin'] for sc in case.get('sel', [])}
     if ops is None:
         ops = gen_ops(rng, E, n_ops)
     fixed = {}
@@ -167,6 +168,14 @@ def run(case, kind, seed=0, n_ops=10, ops=None):
                     if not ok_:
                         fail('corrected-vector-out-of-range', 'after %s: x=%s fixed=%s -> %s act %s: entry %s of variable %s' % (trace[:-1], x, fixed, obs[0], obs[1], v_, e_[:3]))
                         break
+                # a fixed selection variable is respected: when its choice is active in the decoded instance (the originating
+                # node is there) the fixed option is in the instance (absolute check, same reason)
+                if obs[2] is not None:
+                    for i_, v_ in fixed.items():
+                        e_ = E[i_]
+                        if e_[0] == 'sel' and 0 <= v_ < len(e_[2]) and origin_of.get(e_[1]) in obs[2] and e_[2][v_] not in obs[2]:
+                            fail('fixed-value-not-respected', 'after %s: x=%s with choice %s fixed to option %s decodes to nodes %s' % (trace[:-1], x, e_[1], e_[2][v_], obs[2]))
+                            break
                 if obs != ref:
                     fail('decode-differs-from-fresh-processor', 'after %s: x=%s create=%s got %s, fresh processor %s' % (trace[:-1], x, op[2], obs, ref))
                 if obs[4]:
